@@ -501,6 +501,22 @@ def attrRecOf (h : Heap) (k : String) (v : Val) (e : Bool) : M (List AttrRec) :=
     let s ← ofOpt (objStr h (strFuel h) v) "String() outside domain"
     pure [(k, none, s, e)]
 
+/-- the (key text, value) pairs of an `__op__map` argument list: keys through `String()`, values through `convert`; an odd list
+panics on `a[i+1]`, a key without a text is outside the model -/
+def opMapPairs (h : Heap) : List Val → Except Err (List (String × Val))
+  | k :: v :: rest =>
+    match objStr h (strFuel h) k with
+    | none => .error (.domain "map key")
+    | some ks => (opMapPairs h rest).map ((ks, convertRaw v) :: ·)
+  | [] => .ok []
+  | [_] => .error (.panic "runtime error: index out of range")
+
+/-- runtime.go `__op__map` (the object literal): items by key, the later value of a repeated key wins; `order` = the keys as written -/
+def opMap (h : Heap) (kvs : List Val) : M Val :=
+  match opMapPairs h kvs with
+  | .error e => throwE e
+  | .ok ps => allocMap { items := ps.foldl (fun acc (kv : String × Val) => assocSet acc kv.1 kv.2) [], order := ps.map (·.1) }
+
 /-- the (name, value) pairs of a `__op__map_params` argument list -/
 def mpairs : List Val → Option (List (String × Val))
   | .str k :: v :: rest => (mpairs rest).map ((k, v) :: ·)
@@ -568,16 +584,7 @@ def callBuiltin (name : String) (args : List Val) : M Val := do
       match name, args with
       | "__if", [t, l, r] => pure (convertRaw (if truth h t then l else r))
       | "__op__array", items => allocArr (items.map convertRaw)
-      | "__op__map", kvs => do
-        let rec pairs : List Val → M (List (String × Val))
-          | k :: v :: rest => do
-            let ks ← ofOpt (objStr h (strFuel h) k) "map key"
-            pure ((ks, convertRaw v) :: (← pairs rest))
-          | [] => pure []
-          | [_] => throwE (.panic "runtime error: index out of range")
-        let ps ← pairs kvs
-        let items := ps.foldl (fun acc (k, v) => assocSet acc k v) []
-        allocMap { items := items, order := ps.map (·.1) }
+      | "__op__map", kvs => opMap h kvs
       | "__str", parts => do
         let ss ← parts.mapM fun v => ofOpt (objStr h (strFuel h) v) "String() outside domain"
         pure (.S (String.join ss))
